@@ -12,7 +12,7 @@ OPK = {1: "Process", 2: "Process(flush)", 3: "Process(non-Gateable)", 4: "FlushA
 # one signature per code path: FlushAll and Close share theirs, so do Process with and without the flush flag
 SIGOP = {1: "Process", 2: "Process", 3: "Process(non-Gateable)", 4: "FlushAll/Close", 5: "FlushAll/Close", 6: "Process(no id)", 7: "concurrent"}
 # at the first failing call the property-level (observation-only) oracles name the violation; model differences come after
-PRIO = ["KLinger", "KLost", "KDup", "KOrder", "KIdent", "KEmptyId", "KSentGateable", "KIndex", "KConc", "KRes", "KGated", "KSent", "KCompose", "KComp"]
+PRIO = ["KSentGateable", "KLinger", "KLost", "KDup", "KOrder", "KIdent", "KEmptyId", "KIndex", "KConc", "KRes", "KGated", "KSent", "KCompose", "KComp"]
 
 # which mismatch kinds speak about which property
 RELEVANT = {
@@ -22,9 +22,9 @@ RELEVANT = {
 }
 
 ARGS = {
-    ("C11", "quick"): ["-modes", "bfs,random,conc", "-bfs-depth", "5", "-bfs-sym", "-bfs-nosym-depth", "4", "-random", "300", "-random-len", "60", "-conc", "12"],
+    ("C11", "quick"): ["-modes", "bfs,random,conc", "-bfs-depth", "5", "-bfs-sym", "-bfs-nosym-depth", "3", "-random", "300", "-random-len", "60", "-conc", "12"],
     ("C11", "thorough"): ["-modes", "bfs,random,conc", "-bfs-depth", "7", "-bfs-sym", "-bfs-nosym-depth", "5", "-bfs-full-configs", "-random", "4000", "-random-len", "200", "-conc", "400"],
-    ("C17", "quick"): ["-modes", "bfs,random", "-bfs-depth", "5", "-bfs-sym", "-bfs-nosym-depth", "4", "-random", "400", "-random-len", "60", "-random-ids", "5"],
+    ("C17", "quick"): ["-modes", "bfs,random", "-bfs-depth", "5", "-bfs-sym", "-bfs-nosym-depth", "3", "-random", "400", "-random-len", "60", "-random-ids", "5"],
     ("C17", "thorough"): ["-modes", "bfs,random,conc", "-bfs-depth", "7", "-bfs-sym", "-bfs-nosym-depth", "5", "-bfs-full-configs", "-random", "4000", "-random-len", "200", "-conc", "100"],
 }
 
@@ -41,7 +41,51 @@ ASSUMPTIONS = [
 def check(ctx):
     V.check_properties_file(ctx, "Properties_%s.v" % ctx.prop)
     run(ctx)
+    if ctx.prop == "C11":
+        gateable_composite_reentry_part(ctx)
     ctx.assumptions += ASSUMPTIONS
+
+
+def gateable_composite_reentry_part(ctx, binp=None):
+    """The wired-to-the-same-Broker watchdog scenarios only (a few seconds; used by C11 and callable from the C12 check):
+    a gated.Filter whose Broker routes the composites it sends back into a pipeline containing the filter itself, with pending
+    groups flushed by expiry during Process, by FlushAll and by RemovePipelineAndNodes, for ComposeFrom returning a plain, a
+    Gateable and a Gateable-with-FlushEvent()==true composite.  Every call runs under a watchdog.  A hang appends a violation
+    with match "gated:reentry-hang" (replay = scenario + goroutine dump); a Gateable composite routed by the Broker without a
+    hang appends "gated:KSentGateable@reentry".  Returns the list of scenario records (None when the driver could not be built/run)."""
+    binp = binp or _build(ctx)
+    if not binp:
+        return None
+    cdir = os.path.join(ctx.work, "gated-reentry")
+    os.makedirs(cdir, exist_ok=True)
+    rc, out = V.run([binp, "-out", cdir, "-reentry", "-watchdog", "3s"], timeout=300)
+    if rc != 0 or not os.path.exists(os.path.join(cdir, "reentry.json")):
+        rp = V.write_replay(ctx, "harness-run-reentry", {"kind": "correspondence", "engine": "gatedh-crash", "output": out[-6000:]})
+        ctx.violations.append({"match": "gated:harness-crash", "replay": rp, "what": "gatedh -reentry crashed", "no_input": True})
+        return None
+    res = json.load(open(os.path.join(cdir, "reentry.json")))
+    part = ctx.coverage["parts"].setdefault("gated-reentry", {})
+    part.update({"scenarios": len(res), "hung": sum(1 for r in res if r["hang"]),
+                 "plain_composites_routed_back_into_the_filter": sum(r.get("plain_composites_routed_back_into_the_filter", 0) for r in res),
+                 "rule": "filter wired to the Broker whose pipeline contains it; 3 flush paths x 3 kinds of composite; each call under a 3 s watchdog"})
+    ctx.coverage["evaluations"] += len(res)
+    hung = [r for r in res if r["hang"]]
+    if hung:
+        r = hung[0]
+        rp = V.write_replay(ctx, "gated-reentry-hang", {
+            "kind": "search", "engine": "gatedh-reentry", "theorem_or_correspondence": "GatedProofs.gated_reentry_terminates / C11_broker_composites_not_gateable on the implementation",
+            "scenario": {k: r[k] for k in r if k != "goroutine_dump"}, "all_hung_scenarios": [[x["scenario"], x["composite"], x.get("hung_at")] for x in hung],
+            "goroutine_dump": r.get("goroutine_dump", "")[:12000], "repro": "bin/check replay <this file>"})
+        ctx.violations.append({"match": "gated:reentry-hang", "replay": rp,
+                               "what": "gated.Filter wired to its own Broker: %s did not return within the watchdog (%s, ComposeFrom returns a %s composite): the composite sent "
+                                       "while holding the filter's mutex re-entered Process and parked on that mutex" % (r.get("hung_at"), r["scenario"], r["composite"])})
+    through = [r for r in res if not r["hang"] and r.get("gateable_composites_routed_by_the_broker", 0) > 0]
+    if through:
+        r = through[0]
+        rp = V.write_replay(ctx, "gated-reentry-gateable", {"kind": "search", "engine": "gatedh-reentry", "scenario": r, "repro": "bin/check replay <this file>"})
+        ctx.violations.append({"match": "gated:KSentGateable@reentry", "replay": rp,
+                               "what": "a Gateable composite was emitted through the Broker (%s, %s)" % (r["scenario"], r["composite"])})
+    return res
 
 
 PROPS = {"C11": check, "C17": check}
@@ -54,7 +98,7 @@ MANIFEST = {
                     "critical sections = every interleaving, every ComposeFrom/Send fault oracle, every clock): exactly_once / accounting (permutation), "
                     "group_integrity (each composite = the events of its id pending since the group opened, in arrival order), dests_permitted (discard only "
                     "for no-Broker / compose error / Gateable composite / send error), handed_over_exactly_once_after_flush, accepted_withheld, flush_returns_group, non_gateable_identity, "
-                    "empty_id_rejected, broker_composites_not_gateable; tie: gatedh runs every history to depth 5 (quick; up to renaming of ids, and to depth 4 without that reduction) / 7 (thorough; depth 5 without it) "
+                    "empty_id_rejected, broker_composites_not_gateable; tie: gatedh runs every history to depth 5 (quick; up to renaming of ids, and to depth 3 without that reduction) / 7 (thorough; depth 5 without it) "
                     "over {event(3 ids, flush?), no-id event, non-Gateable, clock advances 1/exp-1/exp/exp+1, FlushAll, Close} x Broker set/unset x fault "
                     "oracles, random histories to 200 calls over 5 ids and concurrent senders on the real filter; Run_Gated.mismatches compares result, "
                     "ComposeFrom arguments, Sender payloads and the VerifGated snapshot after every call and evaluates observation-only oracles",
@@ -224,7 +268,8 @@ def run(ctx, prop=None):
             "case": small, "original_case_calls": n, "cases_failing_with_any_relevant_kind": total_by_case,
             "repro": "bin/check replay <this file>"})
         ctx.violations.append({"match": "gated:" + sig, "replay": rp,
-                               "what": "%s: gated.Filter and its model disagree / an oracle fails: %s at call %d of a %d-call history (%d cases affected in total)" % (prop, sig, ms[0][0], _ncalls(small), total_by_case)})
+                               "what": "%s: gated.Filter and its model disagree / an oracle fails: %s at call %d of a %d-call history%s (%d cases affected in total)" % (
+                                   prop, sig, ms[0][0], n, "" if small is c else ", shrunk to %d calls in the replay" % _ncalls(small), total_by_case)})
     part["rule"] = ("histories of Process/FlushAll/Close calls and clock advances run on the real gated.Filter (NowFunc = harness clock, harness payload "
                     "records ComposeFrom arguments, harness Sender records payloads); after every call the harness observes the result, the ComposeFrom "
                     "arguments, the payloads sent and the VerifGated snapshot; the Coq model is run on the same history by vm_compute. bfs = every history to "
@@ -244,11 +289,18 @@ def run(ctx, prop=None):
 
 
 def handles_replay(rec):
-    return rec.get("engine") in ("gatedh", "gatedh-crash")
+    return rec.get("engine") in ("gatedh", "gatedh-crash", "gatedh-reentry")
 
 
 def replay(ctx, rec, path):
     """re-run the recorded history on the real filter and on the model, print both"""
+    if rec.get("engine") == "gatedh-reentry":
+        res = gateable_composite_reentry_part(ctx)
+        for r in res or []:
+            print("%-36s %-15s hang=%s %s gateable composites routed by the broker: %d" % (r["scenario"], r["composite"], r["hang"], r.get("hung_at") or "", r.get("gateable_composites_routed_by_the_broker", 0)))
+        for v in ctx.violations:
+            print("#", v["what"])
+        return 1 if ctx.violations else 0
     if rec.get("engine") == "gatedh-crash":
         print(rec.get("output", ""))
         print("the record above is the harness output (race detector report / crash); re-run: bin/check %s --tier %s" % (rec.get("property"), rec.get("tier", "quick")))
